@@ -136,13 +136,17 @@ func GenerateViews(r *lp.Rng, index int) *Design {
 	for k := 0; k < nm; k++ {
 		ti := (k + index) % nT
 		m := &Method{Name: fmt.Sprintf("get%d", k), HTTP: &HTTPMap{Verb: "GET", Path: fmt.Sprintf("/get%d", k)}}
-		switch (k + index/3) % 3 {
+		switch (k + index/3) % 4 {
 		case 0:
 			m.Result = &Att{Type: &Type{Ref: names[ti]}}
 		case 1:
 			m.Result = &Att{Type: &Type{Collection: names[ti]}}
-		default:
+		case 2:
 			m.Result = &Att{Type: &Type{Ref: names[ti]}}
+			m.ResultView = lp.Pick(r, infos[ti].views)
+		default:
+			// a collection with the view fixed in the design
+			m.Result = &Att{Type: &Type{Collection: names[ti]}}
 			m.ResultView = lp.Pick(r, infos[ti].views)
 		}
 		svc.Methods = append(svc.Methods, m)
